@@ -71,25 +71,69 @@ theorem capture_ne_noHistory (s : St) : capture s.cs (oldOf s) ≠ .noHistory :=
   · cases s.db <;> simp
   · simp
 
+/-- the invariant only looks at `cur`, `cs`, `db`; every operation of the machine either leaves
+    them alone, records the old value (a modification), or ends in a clean state whose value —
+    if present — is the row's -/
+theorem inv_of {s t : St} (h : Inv s)
+    (H : (t.cur = s.cur ∧ t.cs = s.cs ∧ t.db = s.db) ∨
+         (t.cs = capture s.cs (oldOf s) ∧ t.db = s.db) ∨
+         (t.cs = .noHistory ∧ (t.cur = .absent ∨ ∃ v, t.cur = .val v ∧ t.db = some v))) : Inv t := by
+  rcases H with ⟨h1, h2, h3⟩ | ⟨h1, h2⟩ | ⟨h1, h2⟩
+  · exact ⟨fun hc c hcur => by rw [h3]; exact h.clean (h2 ▸ hc) c (h1 ▸ hcur),
+      fun o ho => by rw [h3]; exact h.orig o (h2 ▸ ho)⟩
+  · refine ⟨fun hc => ?_, fun o ho => ?_⟩
+    · rw [h1] at hc; exact absurd hc (capture_ne_noHistory s)
+    · rw [h1] at ho; rw [h2]; exact capture_val h o ho
+  · refine ⟨fun _ c hcur => ?_, fun o ho => ?_⟩
+    · rcases h2 with h2 | ⟨v, hv, hdb⟩
+      · rw [h2] at hcur; cases hcur
+      · rw [hv] at hcur; simp only [Slot.val.injEq] at hcur; subst hcur; exact hdb
+    · rw [h1] at ho; cases ho
+
+theorem flushWrite_core (s : St) :
+    ((flushWrite s).cur = s.cur ∧ (flushWrite s).cs = s.cs ∧ (flushWrite s).db = s.db ∧
+        s.cs = .noHistory ∧ s.db.isSome = true) ∨
+    ((flushWrite s).cs = .noHistory ∧ (flushWrite s).cur = s.cur ∧
+      (flushWrite s).db = some (match s.cur with | .val c => c | .absent => none)) := by
+  unfold flushWrite
+  split
+  · rename_i hcs
+    split
+    · rename_i v hdb
+      exact Or.inl ⟨rfl, rfl, rfl, hcs, by simp [hdb]⟩
+    · exact Or.inr ⟨hcs, rfl, rfl⟩
+  · exact Or.inr ⟨rfl, rfl, rfl⟩
+
+theorem inv_flushWrite {s : St} (h : Inv s) : Inv (flushWrite s) := by
+  rcases flushWrite_core s with ⟨h1, h2, h3, _, _⟩ | ⟨h1, h2, h3⟩
+  · exact inv_of h (Or.inl ⟨h1, h2, h3⟩)
+  · refine inv_of h (Or.inr (Or.inr ⟨h1, ?_⟩))
+    rw [h2, h3]
+    cases s.cur with
+    | absent => exact Or.inl rfl
+    | val c => exact Or.inr ⟨c, rfl, rfl⟩
+
 theorem inv_step {s : St} (h : Inv s) (op : Op) : Inv (step s op) := by
   cases op with
-  | set v =>
-    refine ⟨fun hc => absurd hc (capture_ne_noHistory s), fun o ho => ?_⟩
-    exact capture_val h o ho
+  | set v => exact inv_of h (Or.inr (Or.inl ⟨rfl, rfl⟩))
   | del =>
-    have key : Inv { s with cs := capture s.cs (oldOf s), cur := Slot.absent } :=
-      ⟨fun hc => absurd hc (capture_ne_noHistory s), fun o ho => capture_val h o ho⟩
+    refine inv_of h (Or.inr (Or.inl ?_))
     simp only [step, del]
     split
-    · exact key
+    · exact ⟨rfl, rfl⟩
     · split
-      · split <;> exact key
-      · split <;> exact key
+      · split <;> exact ⟨rfl, rfl⟩
+      · split <;> exact ⟨rfl, rfl⟩
   | expire =>
     simp only [step, expire]
     split
     · exact h
-    · exact ⟨(fun _ c hc => by cases hc), (fun o ho => by cases ho)⟩
+    · exact inv_of h (Or.inr (Or.inr ⟨rfl, Or.inl rfl⟩))
+  | expireAll =>
+    simp only [step, expireAll]
+    split
+    · exact h
+    · exact inv_of h (Or.inr (Or.inr ⟨rfl, Or.inl rfl⟩))
   | load =>
     simp only [step, load]
     split
@@ -97,25 +141,38 @@ theorem inv_step {s : St} (h : Inv s) (op : Op) : Inv (step s op) := by
       split
       · split
         · exact h
-        · exact ⟨(fun _ c hc => by simp only [Slot.val.injEq] at hc; subst hc; exact hdb),
-            (fun o ho => by cases ho)⟩
+        · exact inv_of h (Or.inr (Or.inr ⟨rfl, Or.inr ⟨v, rfl, hdb⟩⟩))
       · split
-        · exact ⟨(fun _ c hc => by simp only [Slot.val.injEq] at hc; subst hc; exact hdb),
-            (fun o ho => by cases ho)⟩
+        · exact inv_of h (Or.inr (Or.inr ⟨rfl, Or.inr ⟨v, rfl, hdb⟩⟩))
         · exact h
     · exact h
+  | loadOther =>
+    simp only [step, loadOther]
+    split
+    · exact h
+    · split
+      · rename_i v hcur hcs hdb
+        split
+        · exact inv_of h (Or.inr (Or.inr ⟨hcs, Or.inr ⟨v, rfl, hdb⟩⟩))
+        · exact inv_of h (Or.inl ⟨rfl, rfl, rfl⟩)
+      · exact inv_of h (Or.inl ⟨rfl, rfl, rfl⟩)
   | flush =>
+    have hw := inv_flushWrite h
     simp only [step, flush]
     split
-    · rename_i hcs
-      split
-      · exact h
-      · refine ⟨fun _ c hc => ?_, (fun o ho => by rw [hcs] at ho; cases ho)⟩
-        simp only at hc ⊢
-        rw [hc]
-    · refine ⟨fun _ c hc => ?_, (fun o ho => by cases ho)⟩
-      simp only at hc ⊢
-      rw [hc]
+    · split
+      · split
+        · rename_i v hcur hcs hdb
+          have hcs1 : (flushWrite s).cs = .noHistory := by
+            rcases flushWrite_core s with ⟨_, h2, _, _, _⟩ | ⟨h1, _, _⟩
+            · rw [h2]; exact hcs
+            · exact h1
+          split
+          · exact inv_of hw (Or.inr (Or.inr ⟨hcs1, Or.inr ⟨v, rfl, hdb⟩⟩))
+          · exact inv_of hw (Or.inl ⟨rfl, rfl, rfl⟩)
+        · exact inv_of hw (Or.inl ⟨rfl, rfl, rfl⟩)
+      · exact inv_of hw (Or.inl ⟨rfl, rfl, rfl⟩)
+    · exact hw
 
 /-- **inv_run**: the invariant holds after ANY sequence of set / del / expire / load / flush -/
 theorem inv_run : ∀ (ops : List Op) (s : St), Inv s → Inv (run s ops)
@@ -232,28 +289,64 @@ theorem unknown_original_counterexample :
     history (run (loaded (some 5) false) [.expire, .set (some 5)]) = ⟨[some 5], [], []⟩ := by
   decide
 
-/-- **flush_persists_history**: flush writes the current value (NULL for a missing one) and
-    leaves a history without added / deleted parts -/
-theorem flush_persists_history (s : St) (hm : s.cs ≠ .noHistory ∨ s.db = none) :
-    (flush s).db = some (match s.cur with | .val c => c | .absent => none) ∧
-      (history (flush s)).added = [] ∧ (history (flush s)).deleted = [] := by
-  have hcs : (flush s).cs = .noHistory ∧ (flush s).cur = s.cur ∧
-      (flush s).db = some (match s.cur with | .val c => c | .absent => none) := by
-    unfold flush
-    split
-    · rename_i h
-      rcases hm with hm | hm
-      · exact absurd h hm
-      · rw [hm]; exact ⟨h, rfl, rfl⟩
-    · exact ⟨rfl, rfl, rfl⟩
-  refine ⟨hcs.2.2, ?_⟩
+/-- `flush` = `flushWrite` up to the flags, except that an absent attribute may be loaded -/
+theorem flush_core (s : St) :
+    (flush s).cs = (flushWrite s).cs ∧ (flush s).db = (flushWrite s).db ∧
+    (flush s).isObj = (flushWrite s).isObj ∧
+    ((flush s).cur = (flushWrite s).cur ∨ (flushWrite s).cur = .absent) := by
+  unfold flush
+  simp only
+  split
+  · split
+    · split
+      · rename_i v hcur hcs hdb
+        have hcur1 : (flushWrite s).cur = .absent := by
+          rcases flushWrite_core s with ⟨h1, _, _, _, _⟩ | ⟨_, h2, _⟩
+          · rw [h1]; exact hcur
+          · rw [h2]; exact hcur
+        split
+        · exact ⟨rfl, rfl, rfl, Or.inr hcur1⟩
+        · exact ⟨rfl, rfl, rfl, Or.inl rfl⟩
+      · exact ⟨rfl, rfl, rfl, Or.inl rfl⟩
+    · exact ⟨rfl, rfl, rfl, Or.inl rfl⟩
+  · exact ⟨rfl, rfl, rfl, Or.inl rfl⟩
+
+theorem flushWrite_isObj (s : St) : (flushWrite s).isObj = s.isObj := by
+  unfold flushWrite
+  split
+  · split <;> rfl
+  · rfl
+
+/-- **flush_persists_history**: flush writes the current value and leaves a history without
+    added / deleted parts -/
+theorem flush_persists_history (s : St) (c : SVal) (hc : s.cur = .val c)
+    (hm : s.cs ≠ .noHistory ∨ s.db = none) :
+    (flush s).db = some c ∧ history (flush s) = ⟨[], [c], []⟩ := by
+  have hw : (flushWrite s).cs = .noHistory ∧ (flushWrite s).cur = .val c ∧
+      (flushWrite s).db = some c := by
+    rcases flushWrite_core s with ⟨_, _, _, h4, h5⟩ | ⟨h1, h2, h3⟩
+    · rcases hm with hm | hm
+      · exact absurd h4 hm
+      · rw [hm] at h5; cases h5
+    · rw [hc] at h3 h2
+      exact ⟨h1, h2, h3⟩
+  obtain ⟨f1, f2, f3, f4⟩ := flush_core s
+  have hcur : (flush s).cur = .val c := by
+    rcases f4 with f4 | f4
+    · rw [f4]; exact hw.2.1
+    · rw [hw.2.1] at f4; cases f4
+  refine ⟨by rw [f2]; exact hw.2.2, ?_⟩
   unfold history
-  rw [hcs.1, hcs.2.1]
-  cases hcur : s.cur with
-  | absent => exact ⟨rfl, rfl⟩
-  | val c =>
-    simp only
-    split <;> simp [fromObject, fromScalar]
+  rw [hcur, f1, hw.1]
+  simp only
+  split <;> simp [fromObject, fromScalar]
+
+/-- a deleted attribute is written as NULL -/
+theorem flush_writes_null_for_deleted (s : St) (hc : s.cur = .absent) (hm : s.cs ≠ .noHistory) :
+    (flush s).db = some none := by
+  rcases flushWrite_core s with ⟨_, _, _, h4, _⟩ | ⟨_, _, h3⟩
+  · exact absurd h4 hm
+  · rw [(flush_core s).2.1, h3, hc]
 
 example : history (run (loaded (some 1) false) [.set (some 2), .set none, .set (some 1)])
     = ⟨[], [some 1], []⟩ := by decide
